@@ -12,6 +12,10 @@ mod platform;
 mod server;
 mod source;
 
+#[cfg(pendulum_project_ntpd_rs_verif)]
+#[path = "/verif/hooks/statime_csptp/mod.rs"]
+pub mod verif;
+
 pub use manager::{CsptpConfig, CsptpManager};
 pub use platform::{InternalState, StateMutex};
 pub use server::{ServerRecvResult, ServerSocket, serve};
